@@ -1,9 +1,1633 @@
-//! C20 — not implemented yet (stub).
-use crate::engine::Opts;
-pub fn main(_opts: &Opts) -> i32 {
-    eprintln!("C20: check not implemented");
-    2
+//! C20 — native Rust values map to valid typed literals and back without loss.
+//!
+//! Oracles (all independent of the code under test):
+//!  * hand-written recognisers of the XSD lexical spaces (integer family with facets, decimal,
+//!    double/float, boolean, string = XML Char*),
+//!  * an exact decimal -> binary floating point rounding (`nearest`) on a tiny big-integer type
+//!    (binary search over the ordered bit patterns + exact half-way comparison, ties to even),
+//!  * the inverse property itself: value -> literal -> (any representation / serialisation round
+//!    trip) -> value must be the identity (bitwise for f64, NaN -> NaN).
+use crate::engine::*;
+use crate::gen;
+use crate::model::*;
+use proptest::prelude::*;
+use serde::{Deserialize, Serialize};
+use sophia_api::prelude::{QuadParser, QuadSerializer, Stringifier, TripleSerializer};
+use sophia_api::source::{IntoSource, QuadSource, TripleSource};
+use sophia_api::term::{
+    BnodeId, CmpTerm, IriRef, LanguageTag, SimpleTerm, Term, TermKind, TryFromTerm, VarName,
+};
+use sophia_api::triple::Triple;
+use sophia_api::quad::Quad;
+use sophia_api::MownStr;
+use sophia_term::{ArcStrStash, ArcTerm, GenericLiteral, RcStrStash, RcTerm};
+use std::cmp::Ordering;
+
+#[derive(Clone, Debug, Serialize, Deserialize)]
+pub enum Case {
+    I32(i32),
+    Isize(i64),
+    Usize(u64),
+    Bool(bool),
+    /// bit pattern (keeps NaN payloads and the sign of zero through JSON)
+    F64(u64),
+    Str(String),
+    /// arbitrary literal: lexical form, datatype IRI
+    Lit(String, String),
+    /// any term
+    Term(MT),
+}
+
+pub struct C20;
+
+// =====================================================================================
+// tiny big unsigned integer
+// =====================================================================================
+
+#[derive(Clone, Debug, PartialEq, Eq)]
+struct Big(Vec<u32>);
+impl Big {
+    fn from_u64(v: u64) -> Big {
+        let mut b = Big(vec![v as u32, (v >> 32) as u32]);
+        b.trim();
+        b
+    }
+    fn from_dec(d: &str) -> Big {
+        let mut b = Big(vec![]);
+        for chunk in d.as_bytes().chunks(9) {
+            let mut m = 1u32;
+            let mut a = 0u32;
+            for c in chunk {
+                m *= 10;
+                a = a * 10 + (c - b'0') as u32;
+            }
+            b.mul_small(m);
+            b.add_small(a);
+        }
+        b
+    }
+    fn trim(&mut self) {
+        while self.0.last() == Some(&0) {
+            self.0.pop();
+        }
+    }
+    fn is_zero(&self) -> bool {
+        self.0.is_empty()
+    }
+    fn mul_small(&mut self, m: u32) {
+        let mut carry = 0u64;
+        for w in self.0.iter_mut() {
+            let v = *w as u64 * m as u64 + carry;
+            *w = v as u32;
+            carry = v >> 32;
+        }
+        if carry > 0 {
+            self.0.push(carry as u32);
+        }
+        self.trim();
+    }
+    fn add_small(&mut self, a: u32) {
+        let mut carry = a as u64;
+        for w in self.0.iter_mut() {
+            if carry == 0 {
+                break;
+            }
+            let v = *w as u64 + carry;
+            *w = v as u32;
+            carry = v >> 32;
+        }
+        if carry > 0 {
+            self.0.push(carry as u32);
+        }
+    }
+    fn mul_pow10(&mut self, mut k: u64) {
+        while k >= 9 {
+            self.mul_small(1_000_000_000);
+            k -= 9;
+        }
+        if k > 0 {
+            self.mul_small(10u32.pow(k as u32));
+        }
+    }
+    fn shl(&mut self, bits: u64) {
+        if self.is_zero() {
+            return;
+        }
+        let words = (bits / 32) as usize;
+        let rem = (bits % 32) as u32;
+        if rem > 0 {
+            let mut carry = 0u32;
+            for w in self.0.iter_mut() {
+                let v = ((*w as u64) << rem) | carry as u64;
+                *w = v as u32;
+                carry = (v >> 32) as u32;
+            }
+            if carry > 0 {
+                self.0.push(carry);
+            }
+        }
+        if words > 0 {
+            let mut v = vec![0u32; words];
+            v.extend_from_slice(&self.0);
+            self.0 = v;
+        }
+    }
+    fn cmp_big(&self, o: &Big) -> Ordering {
+        Ord::cmp(&self.0.len(), &o.0.len()).then_with(|| Iterator::cmp(self.0.iter().rev(), o.0.iter().rev()))
+    }
+}
+
+// =====================================================================================
+// XSD lexical spaces and exact values
+// =====================================================================================
+
+/// A decimal number `(-1)^neg * digits * 10^exp` (digits: ASCII digits, no leading zeros, "0" for zero).
+#[derive(Clone, Debug)]
+struct Dec {
+    neg: bool,
+    digits: String,
+    exp: i64,
+}
+impl Dec {
+    fn is_zero(&self) -> bool {
+        self.digits == "0"
+    }
+}
+
+/// `[+-]?([0-9]+(\.[0-9]*)?|\.[0-9]+)([eE][+-]?[0-9]+)?` (exponent only if `allow_exp`).
+fn parse_decimal_lexical(lex: &str, allow_exp: bool) -> Option<Dec> {
+    let b = lex.as_bytes();
+    let mut i = 0;
+    let mut neg = false;
+    if i < b.len() && (b[i] == b'+' || b[i] == b'-') {
+        neg = b[i] == b'-';
+        i += 1;
+    }
+    let int_start = i;
+    while i < b.len() && b[i].is_ascii_digit() {
+        i += 1;
+    }
+    let int_part = &lex[int_start..i];
+    let mut frac_part = "";
+    if i < b.len() && b[i] == b'.' {
+        i += 1;
+        let fs = i;
+        while i < b.len() && b[i].is_ascii_digit() {
+            i += 1;
+        }
+        frac_part = &lex[fs..i];
+        if int_part.is_empty() && frac_part.is_empty() {
+            return None;
+        }
+    } else if int_part.is_empty() {
+        return None;
+    }
+    let mut exp: i64 = 0;
+    if i < b.len() && (b[i] == b'e' || b[i] == b'E') {
+        if !allow_exp {
+            return None;
+        }
+        i += 1;
+        let mut eneg = false;
+        if i < b.len() && (b[i] == b'+' || b[i] == b'-') {
+            eneg = b[i] == b'-';
+            i += 1;
+        }
+        let es = i;
+        while i < b.len() && b[i].is_ascii_digit() {
+            i += 1;
+        }
+        if es == i {
+            return None;
+        }
+        let ed = lex[es..i].trim_start_matches('0');
+        let mag: i64 = if ed.len() > 7 { 10_000_000 } else { ed.parse().unwrap_or(0) };
+        exp = if eneg { -mag } else { mag };
+    }
+    if i != b.len() {
+        return None;
+    }
+    let mut digits = format!("{int_part}{frac_part}");
+    exp -= frac_part.len() as i64;
+    let t = digits.trim_start_matches('0').to_string();
+    digits = if t.is_empty() { "0".into() } else { t };
+    Some(Dec { neg, digits, exp })
+}
+
+/// `[+-]?[0-9]+`
+fn parse_integer_lexical(lex: &str) -> Option<Dec> {
+    let body = lex.strip_prefix(['+', '-']).unwrap_or(lex);
+    if body.is_empty() || !body.bytes().all(|c| c.is_ascii_digit()) {
+        return None;
+    }
+    parse_decimal_lexical(lex, false)
+}
+
+/// integer value of an integral `Dec` with exp == 0, if it fits an i128
+fn dec_to_i128(d: &Dec) -> Option<i128> {
+    if d.exp != 0 || d.digits.len() > 38 {
+        return None;
+    }
+    let v: i128 = d.digits.parse().ok()?;
+    Some(if d.neg { -v } else { v })
+}
+
+#[derive(Clone, Copy)]
+enum Fp {
+    F64,
+    F32,
+}
+impl Fp {
+    fn inf_k(self) -> u64 {
+        match self {
+            Fp::F64 => 0x7FF0_0000_0000_0000,
+            Fp::F32 => 0x7F80_0000,
+        }
+    }
+    /// value(k) = m * 2^e for the k-th non-negative finite value
+    fn decompose(self, k: u64) -> (u64, i64) {
+        match self {
+            Fp::F64 => {
+                let frac = k & ((1u64 << 52) - 1);
+                let ex = (k >> 52) as i64;
+                if ex == 0 {
+                    (frac, -1074)
+                } else {
+                    (frac | (1u64 << 52), ex - 1075)
+                }
+            }
+            Fp::F32 => {
+                let frac = k & ((1u64 << 23) - 1);
+                let ex = (k >> 23) as i64;
+                if ex == 0 {
+                    (frac, -149)
+                } else {
+                    (frac | (1u64 << 23), ex - 150)
+                }
+            }
+        }
+    }
+    fn value(self, k: u64) -> f64 {
+        match self {
+            Fp::F64 => f64::from_bits(k),
+            Fp::F32 => f32::from_bits(k as u32) as f64,
+        }
+    }
+}
+
+/// compare |d| = digits * 10^exp with m * 2^e, exactly. None = too large to evaluate.
+fn cmp_dec_bin(d: &Dec, m: u64, e: i64) -> Option<Ordering> {
+    if d.is_zero() {
+        return Some(if m == 0 { Ordering::Equal } else { Ordering::Less });
+    }
+    if m == 0 {
+        return Some(Ordering::Greater);
+    }
+    let n = d.digits.len() as i64;
+    if n > 3000 {
+        return None;
+    }
+    if n + d.exp > 400 {
+        return Some(Ordering::Greater);
+    }
+    if n + d.exp < -400 {
+        return Some(Ordering::Less);
+    }
+    let mut lhs = Big::from_dec(&d.digits);
+    let mut rhs = Big::from_u64(m);
+    if d.exp > 0 {
+        lhs.mul_pow10(d.exp as u64);
+    } else if d.exp < 0 {
+        rhs.mul_pow10((-d.exp) as u64);
+    }
+    if e < 0 {
+        lhs.shl((-e) as u64);
+    } else if e > 0 {
+        rhs.shl(e as u64);
+    }
+    Some(lhs.cmp_big(&rhs))
+}
+
+/// The value of format `fp` nearest to the decimal number (round half to even, overflow to
+/// infinity): IEEE 754 roundTiesToEven == XSD 1.1 floatingPointRound.
+fn nearest(d: &Dec, fp: Fp) -> Option<f64> {
+    let mut lo = 0u64; // value(lo) <= |d|
+    let mut hi = fp.inf_k() - 1;
+    {
+        let (m, e) = fp.decompose(hi);
+        if cmp_dec_bin(d, m, e)? != Ordering::Less {
+            lo = hi;
+        }
+    }
+    while lo < hi {
+        let mid = lo + (hi - lo + 1) / 2;
+        let (m, e) = fp.decompose(mid);
+        match cmp_dec_bin(d, m, e)? {
+            Ordering::Less => hi = mid - 1,
+            _ => lo = mid,
+        }
+    }
+    let (m, e) = fp.decompose(lo);
+    let k = match cmp_dec_bin(d, m, e)? {
+        Ordering::Equal => lo,
+        _ => match cmp_dec_bin(d, 2 * m + 1, e - 1)? {
+            Ordering::Less => lo,
+            Ordering::Greater => lo + 1,
+            Ordering::Equal => {
+                if m % 2 == 0 {
+                    lo
+                } else {
+                    lo + 1
+                }
+            }
+        },
+    };
+    let v = if k >= fp.inf_k() { f64::INFINITY } else { fp.value(k) };
+    Some(if d.neg { -v } else { v })
+}
+
+/// value denoted by a lexical form of xsd:double / xsd:float (None = not in the lexical space)
+enum FpLex {
+    Num(Dec),
+    Inf(bool),
+    NaN,
+}
+fn parse_fp_lexical(lex: &str) -> Option<FpLex> {
+    match lex {
+        "INF" | "+INF" => Some(FpLex::Inf(false)),
+        "-INF" => Some(FpLex::Inf(true)),
+        "NaN" => Some(FpLex::NaN),
+        _ => parse_decimal_lexical(lex, true).map(FpLex::Num),
+    }
+}
+
+/// Char of XML 1.1 (the most permissive reading of xsd:string's "Char" production)
+fn is_xml11_char(c: char) -> bool {
+    !matches!(c, '\u{0}' | '\u{FFFE}' | '\u{FFFF}')
+}
+/// Char of XML 1.0 (what an RDF/XML document can carry)
+fn is_xml10_char(c: char) -> bool {
+    matches!(c, '\u{9}' | '\u{A}' | '\u{D}' | '\u{20}'..='\u{D7FF}' | '\u{E000}'..='\u{FFFD}' | '\u{10000}'..='\u{10FFFF}')
+}
+
+#[derive(Clone, Copy, Debug, PartialEq)]
+enum Family {
+    /// integer-derived, with inclusive facets
+    Int(Option<i128>, Option<i128>),
+    Decimal,
+    Double,
+    Float,
+    Boolean,
+    Other,
+}
+fn family(dt: &str) -> Family {
+    let Some(l) = dt.strip_prefix(XSD) else { return Family::Other };
+    match l {
+        "integer" => Family::Int(None, None),
+        "long" => Family::Int(Some(i64::MIN as i128), Some(i64::MAX as i128)),
+        "int" => Family::Int(Some(i32::MIN as i128), Some(i32::MAX as i128)),
+        "short" => Family::Int(Some(i16::MIN as i128), Some(i16::MAX as i128)),
+        "byte" => Family::Int(Some(i8::MIN as i128), Some(i8::MAX as i128)),
+        "unsignedLong" => Family::Int(Some(0), Some(u64::MAX as i128)),
+        "unsignedInt" => Family::Int(Some(0), Some(u32::MAX as i128)),
+        "unsignedShort" => Family::Int(Some(0), Some(u16::MAX as i128)),
+        "unsignedByte" => Family::Int(Some(0), Some(u8::MAX as i128)),
+        "nonNegativeInteger" => Family::Int(Some(0), None),
+        "nonPositiveInteger" => Family::Int(None, Some(0)),
+        "negativeInteger" => Family::Int(None, Some(-1)),
+        "positiveInteger" => Family::Int(Some(1), None),
+        "decimal" => Family::Decimal,
+        "double" => Family::Double,
+        "float" => Family::Float,
+        "boolean" => Family::Boolean,
+        _ => Family::Other,
+    }
+}
+
+/// The exact number denoted by a literal of a numeric datatype, if its lexical form is valid.
+enum Denoted {
+    /// an exact decimal number (integer family, decimal)
+    Exact(Dec),
+    /// a floating point value (already rounded to the datatype's value space)
+    Fp(f64),
+    Bool(bool),
+    /// the lexical form is not in the lexical space (or violates a facet): ill-typed literal
+    IllTyped,
+    /// datatype outside the numeric/boolean families: denotes no number at all
+    NotNumeric,
+    /// oracle cannot evaluate (absurdly long input)
+    Unknown,
+}
+fn denoted(lex: &str, dt: &str) -> Denoted {
+    match family(dt) {
+        Family::Other => Denoted::NotNumeric,
+        Family::Boolean => match lex {
+            "true" | "1" => Denoted::Bool(true),
+            "false" | "0" => Denoted::Bool(false),
+            _ => Denoted::IllTyped,
+        },
+        Family::Int(min, max) => match parse_integer_lexical(lex) {
+            None => Denoted::IllTyped,
+            Some(d) => {
+                if min.is_some() || max.is_some() {
+                    match dec_to_i128(&d) {
+                        None => return Denoted::IllTyped, // > 38 digits: outside every bounded facet... or unbounded side
+                        Some(v) => {
+                            if min.map(|m| v < m).unwrap_or(false) || max.map(|m| v > m).unwrap_or(false) {
+                                return Denoted::IllTyped;
+                            }
+                        }
+                    }
+                }
+                Denoted::Exact(d)
+            }
+        },
+        Family::Decimal => match parse_decimal_lexical(lex, false) {
+            None => Denoted::IllTyped,
+            Some(d) => Denoted::Exact(d),
+        },
+        Family::Double | Family::Float => {
+            let fp = if family(dt) == Family::Double { Fp::F64 } else { Fp::F32 };
+            match parse_fp_lexical(lex) {
+                None => Denoted::IllTyped,
+                Some(FpLex::NaN) => Denoted::Fp(f64::NAN),
+                Some(FpLex::Inf(neg)) => Denoted::Fp(if neg { f64::NEG_INFINITY } else { f64::INFINITY }),
+                Some(FpLex::Num(d)) => match nearest(&d, fp) {
+                    Some(v) => Denoted::Fp(v),
+                    None => Denoted::Unknown,
+                },
+            }
+        }
+    }
+}
+
+fn same_f64(a: f64, b: f64) -> bool {
+    (a.is_nan() && b.is_nan()) || a.to_bits() == b.to_bits()
+}
+
+// =====================================================================================
+// native kinds
+// =====================================================================================
+
+trait Kind {
+    type Val: Clone + std::fmt::Debug;
+    const NAME: &'static str;
+    const DT: &'static str;
+    fn back<T: Term>(t: T) -> Result<Self::Val, String>;
+    fn same(a: &Self::Val, b: &Self::Val) -> bool;
+    fn lexical_ok(lex: &str) -> bool;
+    /// label of the region of the value space (the *trigger* used in signatures)
+    fn region(v: &Self::Val) -> String;
+}
+
+fn xsd_(s: &str) -> String {
+    format!("{XSD}{s}")
+}
+
+struct KI32;
+struct KIsize;
+struct KUsize;
+struct KBool;
+struct KF64;
+struct KStr;
+
+fn int_region(v: i128) -> String {
+    if v == 0 {
+        "zero".into()
+    } else if v < 0 {
+        "negative".into()
+    } else {
+        "positive".into()
+    }
+}
+impl Kind for KI32 {
+    type Val = i32;
+    const NAME: &'static str = "i32";
+    const DT: &'static str = "integer";
+    fn back<T: Term>(t: T) -> Result<i32, String> {
+        i32::try_from_term(t).map_err(|e| e.to_string())
+    }
+    fn same(a: &i32, b: &i32) -> bool {
+        a == b
+    }
+    fn lexical_ok(lex: &str) -> bool {
+        parse_integer_lexical(lex).is_some()
+    }
+    fn region(v: &i32) -> String {
+        int_region(*v as i128)
+    }
+}
+impl Kind for KIsize {
+    type Val = isize;
+    const NAME: &'static str = "isize";
+    const DT: &'static str = "integer";
+    fn back<T: Term>(t: T) -> Result<isize, String> {
+        isize::try_from_term(t).map_err(|e| e.to_string())
+    }
+    fn same(a: &isize, b: &isize) -> bool {
+        a == b
+    }
+    fn lexical_ok(lex: &str) -> bool {
+        parse_integer_lexical(lex).is_some()
+    }
+    fn region(v: &isize) -> String {
+        int_region(*v as i128)
+    }
+}
+impl Kind for KUsize {
+    type Val = usize;
+    const NAME: &'static str = "usize";
+    const DT: &'static str = "integer";
+    fn back<T: Term>(t: T) -> Result<usize, String> {
+        usize::try_from_term(t).map_err(|e| e.to_string())
+    }
+    fn same(a: &usize, b: &usize) -> bool {
+        a == b
+    }
+    fn lexical_ok(lex: &str) -> bool {
+        parse_integer_lexical(lex).is_some()
+    }
+    fn region(v: &usize) -> String {
+        int_region(*v as i128)
+    }
+}
+impl Kind for KBool {
+    type Val = bool;
+    const NAME: &'static str = "bool";
+    const DT: &'static str = "boolean";
+    fn back<T: Term>(t: T) -> Result<bool, String> {
+        bool::try_from_term(t).map_err(|e| e.to_string())
+    }
+    fn same(a: &bool, b: &bool) -> bool {
+        a == b
+    }
+    fn lexical_ok(lex: &str) -> bool {
+        matches!(lex, "true" | "false" | "1" | "0")
+    }
+    fn region(v: &bool) -> String {
+        v.to_string()
+    }
+}
+impl Kind for KF64 {
+    type Val = f64;
+    const NAME: &'static str = "f64";
+    const DT: &'static str = "double";
+    fn back<T: Term>(t: T) -> Result<f64, String> {
+        f64::try_from_term(t).map_err(|e| e.to_string())
+    }
+    fn same(a: &f64, b: &f64) -> bool {
+        same_f64(*a, *b)
+    }
+    fn lexical_ok(lex: &str) -> bool {
+        parse_fp_lexical(lex).is_some()
+    }
+    fn region(v: &f64) -> String {
+        if v.is_nan() {
+            "NaN".into()
+        } else if v.is_infinite() {
+            if *v > 0.0 { "+infinity".into() } else { "-infinity".into() }
+        } else if *v == 0.0 {
+            if v.is_sign_negative() { "-0".into() } else { "+0".into() }
+        } else if v.abs() < f64::MIN_POSITIVE {
+            "subnormal".into()
+        } else {
+            "finite".into()
+        }
+    }
+}
+impl Kind for KStr {
+    type Val = String;
+    const NAME: &'static str = "str";
+    const DT: &'static str = "string";
+    fn back<T: Term>(t: T) -> Result<String, String> {
+        // there is no TryFromTerm for strings: the "native value" of an xsd:string literal is its lexical form
+        if t.kind() != TermKind::Literal {
+            return Err(format!("not a literal: {:?}", t.kind()));
+        }
+        if t.language_tag().is_some() {
+            return Err("language-tagged".into());
+        }
+        let dt = t.datatype().ok_or("no datatype")?;
+        if dt.as_str() != XSD_STRING {
+            return Err(format!("datatype {}", dt.as_str()));
+        }
+        Ok(t.lexical_form().ok_or("no lexical form")?.to_string())
+    }
+    fn same(a: &String, b: &String) -> bool {
+        a == b
+    }
+    fn lexical_ok(lex: &str) -> bool {
+        lex.chars().all(is_xml11_char)
+    }
+    fn region(v: &String) -> String {
+        if v.chars().any(|c| !is_xml11_char(c)) {
+            "non-xml-char".into()
+        } else if !v.is_empty() && v.chars().all(|c| matches!(c, ' ' | '\t' | '\n' | '\r')) {
+            "whitespace-only".into()
+        } else if v.contains('\r') {
+            "carriage-return".into()
+        } else if v.chars().any(|c| !is_xml10_char(c)) {
+            "c0-control".into()
+        } else if v.chars().any(|c| c == '\n' || c == '\t') {
+            "newline-tab".into()
+        } else if v.chars().any(|c| matches!(c, '"' | '\\' | '<' | '>' | '&' | '\'')) {
+            "markup-quote".into()
+        } else if !v.is_ascii() {
+            "non-ascii".into()
+        } else if v.is_empty() {
+            "empty".into()
+        } else if v.starts_with(' ') || v.ends_with(' ') {
+            "space-padded".into()
+        } else {
+            "plain".into()
+        }
+    }
+}
+
+// =====================================================================================
+// serialisation round trips. A `Slot` lets the native value itself sit in a triple.
+// =====================================================================================
+
+#[derive(Clone, Copy, Debug)]
+enum Slot<N> {
+    I(&'static str),
+    N(N),
+}
+impl<N: Term + Copy> Term for Slot<N> {
+    type BorrowTerm<'x>
+        = Slot<N>
+    where
+        N: 'x;
+    fn kind(&self) -> TermKind {
+        match self {
+            Slot::I(_) => TermKind::Iri,
+            Slot::N(n) => n.kind(),
+        }
+    }
+    fn iri(&self) -> Option<IriRef<MownStr>> {
+        match self {
+            Slot::I(i) => Some(IriRef::new_unchecked(MownStr::from_ref(i))),
+            Slot::N(n) => n.iri(),
+        }
+    }
+    fn lexical_form(&self) -> Option<MownStr> {
+        match self {
+            Slot::I(_) => None,
+            Slot::N(n) => n.lexical_form(),
+        }
+    }
+    fn datatype(&self) -> Option<IriRef<MownStr>> {
+        match self {
+            Slot::I(_) => None,
+            Slot::N(n) => n.datatype(),
+        }
+    }
+    fn language_tag(&self) -> Option<LanguageTag<MownStr>> {
+        match self {
+            Slot::I(_) => None,
+            Slot::N(n) => n.language_tag(),
+        }
+    }
+    fn bnode_id(&self) -> Option<BnodeId<MownStr>> {
+        None
+    }
+    fn variable(&self) -> Option<VarName<MownStr>> {
+        None
+    }
+    fn triple(&self) -> Option<[Self::BorrowTerm<'_>; 3]> {
+        None
+    }
+    fn to_triple(self) -> Option<[Self; 3]> {
+        None
+    }
+    fn borrow_term(&self) -> Self::BorrowTerm<'_> {
+        *self
+    }
+}
+
+const S_IRI: &str = "http://x/s";
+const P_IRI: &str = "http://x/p";
+const G_IRI: &str = "http://x/g";
+
+pub const FORMATS: &[&str] = &[
+    "nt", "nq", "turtle", "turtle-pretty", "trig", "trig-pretty", "rdfxml", "rdfxml-indent", "jsonld", "jsonld-pretty",
+];
+
+/// What came back: the object read through accessors, and `K::back` applied to the
+/// parser-backed term inside the parser callback.
+type RtOut<V> = Result<(MT, Result<V, String>), String>;
+
+fn rt<K: Kind, N: Term + Copy>(fmt: &str, n: N) -> RtOut<K::Val> {
+    use sophia_turtle::serializer::{nq::NqSerializer, nt::NtSerializer, trig::TrigConfig, trig::TrigSerializer, turtle::TurtleConfig, turtle::TurtleSerializer};
+    let triple = [Slot::I(S_IRI), Slot::I(P_IRI), Slot::N(n)];
+    let quad = (triple, Some(Slot::<N>::I(G_IRI)));
+    let ts = || [triple].into_iter().into_source();
+    let qs = || [quad].into_iter().into_source();
+    let es = |e: &dyn std::fmt::Display| format!("serializer error: {e}");
+    let txt: String = match fmt {
+        "nt" => NtSerializer::new_stringifier().serialize_triples(ts()).map_err(|e| es(&e))?.to_string(),
+        "nq" => NqSerializer::new_stringifier().serialize_quads(qs()).map_err(|e| es(&e))?.to_string(),
+        "turtle" => TurtleSerializer::new_stringifier().serialize_triples(ts()).map_err(|e| es(&e))?.to_string(),
+        "turtle-pretty" => TurtleSerializer::new_stringifier_with_config(TurtleConfig::new().with_pretty(true))
+            .serialize_triples(ts())
+            .map_err(|e| es(&e))?
+            .to_string(),
+        "trig" => TrigSerializer::new_stringifier().serialize_quads(qs()).map_err(|e| es(&e))?.to_string(),
+        "trig-pretty" => TrigSerializer::new_stringifier_with_config(TrigConfig::new().with_pretty(true))
+            .serialize_quads(qs())
+            .map_err(|e| es(&e))?
+            .to_string(),
+        "rdfxml" => sophia_xml::serializer::RdfXmlSerializer::new_stringifier()
+            .serialize_triples(ts())
+            .map_err(|e| es(&e))?
+            .to_string(),
+        "rdfxml-indent" => sophia_xml::serializer::RdfXmlSerializer::new_stringifier_with_config(
+            sophia_xml::serializer::RdfXmlConfig::new().with_indentation(2),
+        )
+        .serialize_triples(ts())
+        .map_err(|e| es(&e))?
+        .to_string(),
+        "jsonld" => sophia_jsonld::JsonLdSerializer::new_stringifier()
+            .serialize_quads(qs())
+            .map_err(|e| es(&e))?
+            .to_string(),
+        "jsonld-pretty" => sophia_jsonld::JsonLdSerializer::new_stringifier_with_options(sophia_jsonld::JsonLdOptions::new().with_spaces(2))
+            .serialize_quads(qs())
+            .map_err(|e| es(&e))?
+            .to_string(),
+        _ => unreachable!(),
+    };
+    if std::env::var_os("C20_DEBUG").is_some() {
+        eprintln!("[{fmt}] {txt:?}");
+    }
+    let mut out: Vec<(MT, Result<K::Val, String>)> = vec![];
+    let ep = |e: &dyn std::fmt::Display| format!("parser error: {e} on document {txt:?}");
+    match fmt {
+        "nt" => sophia_turtle::parser::nt::parse_str(&txt)
+            .for_each_triple(|t| out.push((MT::from_term(t.o()), K::back(t.o()))))
+            .map_err(|e| ep(&e))?,
+        "turtle" | "turtle-pretty" => sophia_turtle::parser::turtle::parse_str(&txt)
+            .for_each_triple(|t| out.push((MT::from_term(t.o()), K::back(t.o()))))
+            .map_err(|e| ep(&e))?,
+        "nq" => sophia_turtle::parser::nq::parse_str(&txt)
+            .for_each_quad(|q| out.push((MT::from_term(q.o()), K::back(q.o()))))
+            .map_err(|e| ep(&e))?,
+        "trig" | "trig-pretty" => sophia_turtle::parser::trig::parse_str(&txt)
+            .for_each_quad(|q| out.push((MT::from_term(q.o()), K::back(q.o()))))
+            .map_err(|e| ep(&e))?,
+        "rdfxml" | "rdfxml-indent" => sophia_xml::parser::parse_str(&txt)
+            .for_each_triple(|t| out.push((MT::from_term(t.o()), K::back(t.o()))))
+            .map_err(|e| ep(&e))?,
+        "jsonld" | "jsonld-pretty" => sophia_jsonld::JsonLdParser::new()
+            .parse_str(&txt)
+            .for_each_quad(|q| out.push((MT::from_term(q.o()), K::back(q.o()))))
+            .map_err(|e| ep(&e))?,
+        _ => unreachable!(),
+    }
+    if out.len() != 1 {
+        return Err(format!("{} statements came back instead of 1 from document {txt:?}", out.len()));
+    }
+    Ok(out.pop().unwrap())
+}
+
+// =====================================================================================
+// the checks
+// =====================================================================================
+
+fn check_repr<K: Kind, T: Term>(ctx: &mut Ctx, repr: &str, orig: &K::Val, exp_lex: &str, t: T) {
+    let region = K::region(orig);
+    let m = MT::from_term(t.borrow_term());
+    let want = MT::lit(exp_lex, xsd_(K::DT));
+    if !m.same_repr(&want) {
+        ctx.fail(
+            format!("copy/{}/{repr}/{region}", K::NAME),
+            format!("{} value {orig:?}: copy into {repr} reads back as {} instead of {}", K::NAME, m.show(), want.show()),
+        );
+    }
+    match catch(|| K::back(t.borrow_term())) {
+        Err(p) => ctx.fail(format!("roundtrip/{}/{repr}/{region}", K::NAME), format!("{} value {orig:?} via {repr}: panic {p}", K::NAME)),
+        Ok(Err(e)) => ctx.fail(
+            format!("roundtrip/{}/{repr}/{region}", K::NAME),
+            format!("{} value {orig:?} via {repr} ({}): conversion back fails: {e}", K::NAME, m.show()),
+        ),
+        Ok(Ok(v)) => {
+            if !K::same(&v, orig) {
+                ctx.fail(
+                    format!("roundtrip/{}/{repr}/{region}", K::NAME),
+                    format!("{} value {orig:?} via {repr} ({}): converts back to {v:?}", K::NAME, m.show()),
+                );
+            }
+        }
+    }
+}
+
+fn check_native<K: Kind, N: Term + Copy>(ctx: &mut Ctx, n: N, orig: K::Val) {
+    let region = K::region(&orig);
+    ctx.class(format!("{}:{region}", K::NAME));
+    // 1. the native value as a term: kind, accessors, datatype, lexical validity
+    let kind = n.kind();
+    if kind != TermKind::Literal {
+        ctx.fail(format!("term/{}/kind", K::NAME), format!("{orig:?}: kind {kind:?}"));
+        return;
+    }
+    if n.iri().is_some() || n.bnode_id().is_some() || n.variable().is_some() || n.triple().is_some() || n.language_tag().is_some() {
+        ctx.fail(format!("term/{}/accessors", K::NAME), format!("{orig:?}: a non-literal accessor returns Some"));
+    }
+    if !(n.is_literal() && n.is_atom() && !n.is_iri() && !n.is_blank_node() && !n.is_triple() && !n.is_variable()) {
+        ctx.fail(format!("term/{}/accessors", K::NAME), format!("{orig:?}: is_* inconsistent with kind"));
+    }
+    let (Some(lex), Some(dt)) = (n.lexical_form(), n.datatype()) else {
+        ctx.fail(format!("term/{}/accessors", K::NAME), format!("{orig:?}: lexical_form/datatype is None"));
+        return;
+    };
+    let lex = lex.to_string();
+    if dt.as_str() != xsd_(K::DT) {
+        ctx.fail(format!("datatype/{}", K::NAME), format!("{orig:?}: datatype {} instead of xsd:{}", dt.as_str(), K::DT));
+    }
+    if !K::lexical_ok(&lex) {
+        ctx.fail(
+            format!("lexical/{}/{region}", K::NAME),
+            format!("{} value {orig:?} has lexical form {lex:?}, which is not in the lexical space of xsd:{}", K::NAME, K::DT),
+        );
+    }
+    // two reads agree (lexical_form allocates on demand)
+    if n.lexical_form().map(|l| l.to_string()) != Some(lex.clone()) {
+        ctx.fail(format!("term/{}/unstable-lexical", K::NAME), format!("{orig:?}: two calls of lexical_form differ"));
+    }
+    // 2. every term representation converts back to the original
+    check_repr::<K, _>(ctx, "native", &orig, &lex, n);
+    check_repr::<K, _>(ctx, "borrow_term", &orig, &lex, n.borrow_term());
+    check_repr::<K, _>(ctx, "CmpTerm", &orig, &lex, CmpTerm(n));
+    let st: SimpleTerm<'static> = n.into_term();
+    check_repr::<K, _>(ctx, "SimpleTerm", &orig, &lex, &st);
+    check_repr::<K, _>(ctx, "as_simple", &orig, &lex, n.as_simple());
+    let st2: SimpleTerm<'static> = n.try_into_term().unwrap();
+    check_repr::<K, _>(ctx, "SimpleTerm(try)", &orig, &lex, st2);
+    let at: ArcTerm = n.into_term();
+    check_repr::<K, _>(ctx, "ArcTerm", &orig, &lex, &at);
+    let rt_: RcTerm = n.into_term();
+    check_repr::<K, _>(ctx, "RcTerm", &orig, &lex, &rt_);
+    match GenericLiteral::<String>::try_from_term(n) {
+        Ok(gl) => check_repr::<K, _>(ctx, "GenericLiteral<String>", &orig, &lex, &gl),
+        Err(e) => ctx.fail(format!("copy/{}/GenericLiteral/{region}", K::NAME), format!("{orig:?}: {e}")),
+    }
+    match GenericLiteral::<std::sync::Arc<str>>::try_from_term(&st) {
+        Ok(gl) => check_repr::<K, _>(ctx, "GenericLiteral<Arc<str>>", &orig, &lex, &gl),
+        Err(e) => ctx.fail(format!("copy/{}/GenericLiteral/{region}", K::NAME), format!("{orig:?}: {e}")),
+    }
+    let mut stash = ArcStrStash::new();
+    check_repr::<K, _>(ctx, "ArcStrStash", &orig, &lex, stash.copy_term(n));
+    let mut stash = RcStrStash::new();
+    check_repr::<K, _>(ctx, "RcStrStash", &orig, &lex, stash.copy_term(n));
+    let cmp_simple: CmpTerm<SimpleTerm<'static>> = n.into_term();
+    check_repr::<K, _>(ctx, "CmpTerm<SimpleTerm>", &orig, &lex, cmp_simple);
+    let res: sophia_sparql::ResultTerm = at.clone().into();
+    check_repr::<K, _>(ctx, "ResultTerm", &orig, &lex, res);
+    // the model-built literal with the same lexical form (i.e. "any other term" that is the image)
+    check_repr::<K, _>(ctx, "model-literal", &orig, &lex, MT::lit(lex.clone(), xsd_(K::DT)).to_simple());
+
+    // 3. serialisation round trips
+    let xml_ok = lex.chars().all(is_xml10_char);
+    for fmt in FORMATS {
+        let r = match catch(|| rt::<K, N>(fmt, n)) {
+            Ok(r) => r,
+            Err(p) => {
+                ctx.fail(format!("serialise/{}/{fmt}/{region}", K::NAME), format!("{} value {orig:?} via {fmt}: panic {p}", K::NAME));
+                continue;
+            }
+        };
+        let xmlish = fmt.starts_with("rdfxml");
+        // indentation is only a formatter option of the same code path: one signature for both
+        let fmt: &str = if xmlish { "rdfxml" } else { *fmt };
+        if xmlish && !xml_ok {
+            // XML 1.0 cannot carry this character at all; any outcome other than a silent
+            // success is acceptable, and even the outcome is only counted (C18's business).
+            ctx.class(format!("rdfxml-unrepresentable:{}", if r.is_ok() { "ok" } else { "error" }));
+            continue;
+        }
+        match r {
+            Err(e) => ctx.fail(
+                format!("serialise/{}/{fmt}/{region}", K::NAME),
+                format!("{} value {orig:?} (lexical {lex:?}) via {fmt}: {e}", K::NAME),
+            ),
+            Ok((m, back)) => match back {
+                Err(e) => ctx.fail(
+                    format!("serialise/{}/{fmt}/{region}", K::NAME),
+                    format!("{} value {orig:?} via {fmt}: came back as {} and conversion fails: {e}", K::NAME, m.show()),
+                ),
+                Ok(v) => {
+                    if !K::same(&v, &orig) {
+                        ctx.fail(
+                            format!("serialise/{}/{fmt}/{region}", K::NAME),
+                            format!("{} value {orig:?} via {fmt}: came back as {} = {v:?}", K::NAME, m.show()),
+                        );
+                    }
+                }
+            },
+        }
+    }
+}
+
+#[derive(Clone, Debug, PartialEq)]
+enum Conv {
+    I(i128),
+    F(u64),
+    B(bool),
+    Err,
+    Panic(String),
+}
+impl Conv {
+    fn show(&self) -> String {
+        match self {
+            Conv::F(b) => format!("{:?}f64", f64::from_bits(*b)),
+            o => format!("{o:?}"),
+        }
+    }
+}
+fn norm_f(v: f64) -> u64 {
+    if v.is_nan() {
+        f64::NAN.to_bits()
+    } else {
+        v.to_bits()
+    }
+}
+
+/// all five conversions of one term
+fn convert_all<T: Term>(t: T) -> [Conv; 5] {
+    fn c<R>(r: Result<Result<R, impl std::fmt::Display>, String>, f: impl Fn(R) -> Conv) -> Conv {
+        match r {
+            Err(p) => Conv::Panic(p),
+            Ok(Err(_)) => Conv::Err,
+            Ok(Ok(v)) => f(v),
+        }
+    }
+    [
+        c(catch(|| i32::try_from_term(t.borrow_term())), |v| Conv::I(v as i128)),
+        c(catch(|| isize::try_from_term(t.borrow_term())), |v| Conv::I(v as i128)),
+        c(catch(|| usize::try_from_term(t.borrow_term())), |v| Conv::I(v as i128)),
+        c(catch(|| f64::try_from_term(t.borrow_term())), |v| Conv::F(norm_f(v))),
+        c(catch(|| bool::try_from_term(t.borrow_term())), Conv::B),
+    ]
+}
+const TARGETS: [&str; 5] = ["i32", "isize", "usize", "f64", "bool"];
+
+fn dt_label(dt: &str) -> String {
+    match dt.strip_prefix(XSD) {
+        Some(l) if family(dt) != Family::Other => format!("xsd:{l}"),
+        Some(_) => "xsd:other".into(),
+        None => "non-xsd".into(),
+    }
+}
+
+/// features of a lexical form, used as the trigger part of signatures
+fn lex_shape(lex: &str) -> &'static str {
+    if lex.is_empty() {
+        "empty"
+    } else if lex.chars().any(|c| c.is_whitespace()) {
+        "whitespace"
+    } else if matches!(lex.to_ascii_lowercase().trim_start_matches(['+', '-']), "inf" | "infinity" | "nan") {
+        "non-finite-word"
+    } else if !lex.is_ascii() {
+        "non-ascii"
+    } else if parse_integer_lexical(lex).is_some() {
+        "integer"
+    } else if parse_decimal_lexical(lex, false).is_some() {
+        "decimal"
+    } else if parse_decimal_lexical(lex, true).is_some() {
+        "exponent"
+    } else {
+        "malformed"
+    }
+}
+
+fn check_literal(ctx: &mut Ctx, lex: &str, dt: &str) {
+    let fam = family(dt);
+    let dtl = dt_label(dt);
+    let shape = lex_shape(lex);
+    ctx.class(format!("lit-dt:{dtl}"));
+    ctx.class(format!("lit-lex:{shape}"));
+    let m = MT::lit(lex, dt);
+    let st = m.to_simple();
+    let base = convert_all(&st);
+    // every representation of the same literal converts identically
+    let at: ArcTerm = (&st).into_term();
+    let others: Vec<(&str, [Conv; 5])> = vec![
+        ("ArcTerm", convert_all(&at)),
+        ("as_simple", convert_all(at.as_simple())),
+        ("CmpTerm", convert_all(CmpTerm(&st))),
+        ("GenericLiteral", convert_all(GenericLiteral::<Box<str>>::try_from_term(&st).unwrap())),
+        ("ResultTerm", convert_all(sophia_sparql::ResultTerm::from(at.clone()))),
+    ];
+    for (name, o) in &others {
+        if *o != base {
+            ctx.fail(
+                format!("convert/representation-dependent/{name}"),
+                format!("{}: conversions differ between SimpleTerm {:?} and {name} {:?}", m.show(), base, o),
+            );
+        }
+    }
+    let den = denoted(lex, dt);
+    let mut any_ok = false;
+    for (i, r) in base.iter().enumerate() {
+        let target = TARGETS[i];
+        match r {
+            Conv::Panic(p) => ctx.fail(
+                format!("convert/panic/{target}/{dtl}/{shape}"),
+                format!("{target}::try_from_term({}) panics: {p}", m.show()),
+            ),
+            Conv::Err => {}
+            ok => {
+                any_ok = true;
+                ctx.class(format!("ok:{target}<-{dtl}"));
+                let bad = |ctx: &mut Ctx, why: String| {
+                    ctx.fail(
+                        format!("convert/value/{target}/{dtl}/{shape}"),
+                        format!("{target}::try_from_term({}) = {} but {why}", m.show(), ok.show()),
+                    )
+                };
+                match &den {
+                    Denoted::NotNumeric => ctx.fail(
+                        format!("convert/accepts-datatype/{target}/{dtl}"),
+                        format!("{target}::try_from_term({}) = {} although the datatype is not numeric/boolean", m.show(), ok.show()),
+                    ),
+                    Denoted::Unknown => ctx.class("oracle-unknown"),
+                    Denoted::IllTyped => {
+                        // the statement only speaks about the value a lexical form denotes; an ill-typed
+                        // literal denotes nothing. Counted, not failed.
+                        ctx.class(format!("ill-typed-accepted:{target}<-{dtl}:{shape}"));
+                    }
+                    Denoted::Bool(b) => match ok {
+                        Conv::B(v) if v == b => {}
+                        _ => bad(ctx, format!("the literal denotes the boolean {b}")),
+                    },
+                    Denoted::Exact(d) => match ok {
+                        Conv::I(v) => {
+                            // integral? (decimal "5.0" denotes the integer 5)
+                            let intval = exact_integer(d);
+                            if intval != Some(*v) {
+                                bad(ctx, format!("the literal denotes {}{}e{}", if d.neg { "-" } else { "" }, d.digits, d.exp));
+                            }
+                        }
+                        Conv::F(bits) => match nearest(d, Fp::F64) {
+                            None => ctx.class("oracle-unknown"),
+                            Some(e) => {
+                                let got = f64::from_bits(*bits);
+                                // decimal/integer have no signed zero: compare numerically
+                                if !(got == e || (got.is_nan() && e.is_nan())) {
+                                    bad(ctx, format!("the nearest double to the denoted number is {e:?}"));
+                                }
+                            }
+                        },
+                        _ => bad(ctx, "the literal denotes a number".into()),
+                    },
+                    Denoted::Fp(e) => match ok {
+                        Conv::F(bits) => {
+                            let got = f64::from_bits(*bits);
+                            if !same_f64(got, *e) {
+                                bad(ctx, format!("the literal denotes {e:?} in the value space of {dtl}"));
+                            }
+                        }
+                        Conv::I(v) => {
+                            if !(e.is_finite() && e.fract() == 0.0 && (*v as f64) == *e && (*v as f64) as i128 == *v) {
+                                bad(ctx, format!("the literal denotes {e:?}"));
+                            }
+                        }
+                        _ => bad(ctx, format!("the literal denotes {e:?}")),
+                    },
+                }
+            }
+        }
+    }
+    let valid = !matches!(den, Denoted::IllTyped | Denoted::NotNumeric | Denoted::Unknown);
+    ctx.class(if valid { "lit:valid-for-datatype" } else if fam == Family::Other { "lit:other-datatype" } else { "lit:ill-typed" });
+    if fam != Family::Other && (valid || any_ok) {
+        ctx.nontrivial();
+    }
+}
+
+fn exact_integer(d: &Dec) -> Option<i128> {
+    if d.is_zero() {
+        return Some(0);
+    }
+    let mut digits = d.digits.clone();
+    let mut exp = d.exp;
+    while exp < 0 {
+        if digits.ends_with('0') && digits.len() > 1 {
+            digits.pop();
+            exp += 1;
+        } else {
+            return None; // has a fractional part
+        }
+    }
+    if exp > 40 {
+        return None;
+    }
+    for _ in 0..exp {
+        digits.push('0');
+    }
+    if digits.len() > 38 {
+        return None;
+    }
+    let v: i128 = digits.parse().ok()?;
+    Some(if d.neg { -v } else { v })
+}
+
+fn check_any_term(ctx: &mut Ctx, m: &MT) {
+    ctx.class(format!("term:{:?}", m.kind()));
+    match m {
+        MT::Lit(l, d) => {
+            check_literal(ctx, l, d);
+            return;
+        }
+        _ => {}
+    }
+    let st = m.to_simple();
+    let at: ArcTerm = (&st).into_term();
+    for (name, r) in [("SimpleTerm", convert_all(&st)), ("ArcTerm", convert_all(&at))] {
+        for (i, c) in r.iter().enumerate() {
+            match c {
+                Conv::Err => {}
+                Conv::Panic(p) => ctx.fail(
+                    format!("convert/panic/{}/{:?}", TARGETS[i], m.kind()),
+                    format!("{}::try_from_term({name} {}) panics: {p}", TARGETS[i], m.show()),
+                ),
+                ok => ctx.fail(
+                    format!("convert/accepts-kind/{}/{:?}{}", TARGETS[i], m.kind(), if m.tag().is_some() { "-lang" } else { "" }),
+                    format!("{}::try_from_term({name} {}) = {} but the term denotes no such value", TARGETS[i], m.show(), ok.show()),
+                ),
+            }
+        }
+    }
+}
+
+// =====================================================================================
+// generators
+// =====================================================================================
+
+fn f64_edges() -> Vec<u64> {
+    let mut v: Vec<f64> = vec![
+        0.0,
+        -0.0,
+        1.0,
+        -1.0,
+        f64::INFINITY,
+        f64::NEG_INFINITY,
+        f64::NAN,
+        f64::MIN_POSITIVE,
+        -f64::MIN_POSITIVE,
+        f64::MAX,
+        f64::MIN,
+        f64::EPSILON,
+        5e-324,
+        -5e-324,
+        2.225073858507201e-308, // largest subnormal
+        0.1,
+        0.2,
+        0.30000000000000004,
+        1.0 / 3.0,
+        2.0 / 3.0,
+        1e15,
+        1e16,
+        1e17,
+        1e21,
+        1e22,
+        1e23,
+        1e-5,
+        1e-7,
+        123456789012345680.0,
+        9007199254740992.0,
+        9007199254740994.0,
+        4503599627370496.5,
+        1.7976931348623157e308,
+        2.2250738585072014e-308,
+        1e300,
+        1e-300,
+        3.14,
+        42.0,
+        1.5,
+        -2.5e-10,
+        6.02214076e23,
+        4.9406564584124654e-324,
+        8.98846567431158e307,
+        0.1 + 0.7,
+        100.0,
+        1e100,
+    ];
+    v.push(f64::from_bits(0x7FF8_0000_0000_0001)); // NaN with payload
+    v.push(f64::from_bits(0xFFF8_0000_0000_0000)); // negative NaN
+    v.push(f64::from_bits(0x7FF0_0000_0000_0001)); // signalling NaN
+    v.push(f64::from_bits(0x000F_FFFF_FFFF_FFFF));
+    v.push(f64::from_bits(0x0010_0000_0000_0001));
+    v.push(f64::from_bits(0x7FEF_FFFF_FFFF_FFFE));
+    v.into_iter().map(f64::to_bits).collect()
+}
+
+fn nasty_strings() -> Vec<String> {
+    [
+        "", " ", "  a  ", "\n", "\r", "\r\n", "a\rb", "\t", "a\u{0}b", "\u{1}", "\u{8}\u{b}\u{c}", "\u{1f}", "\u{7f}", "\u{85}", "\u{2028}",
+        "\u{FFFE}", "\u{FFFF}", "\u{FFFD}", "\u{1F600}", "e\u{301}", "\"", "\\", "'", "'''", "\"\"\"", "<a>&amp;</a>", "]]>", "<!--", "&#13;",
+        "42", "-0", "1.5", "1e5", "true", "false", "INF", "NaN", "inf", "http://x/a", "_:b", "@en", "^^", "a\"^^<http://x/dt>", "\u{10ffff}",
+        "\u{d7ff}\u{e000}", "{\"@value\": 1}", "\\u0041", "\\n", "%20", "\u{a0}", "trailing\\",
+    ]
+    .iter()
+    .map(|s| s.to_string())
+    .collect()
+}
+
+fn numeric_lexicals_fixed() -> Vec<String> {
+    [
+        "0", "-0", "+0", "00", "007", "-007", "+5", "5", "-5", "1", "2147483647", "2147483648", "-2147483648", "-2147483649", "4294967295", "4294967296",
+        "9223372036854775807", "9223372036854775808", "-9223372036854775808", "-9223372036854775809", "18446744073709551615", "18446744073709551616",
+        "340282366920938463463374607431768211456", "99999999999999999999999999999999999999999", "127", "128", "-128", "-129", "255", "256", "32767", "32768",
+        "65535", "65536", "", " ", " 5", "5 ", "\t5\n", "5\u{a0}", "+", "-", ".", "1.", ".5", "-.5", "+.5e-3", "1.0", "1.50", "-1.5", "0.1", "0.10000000000000001",
+        "1e5", "1E5", "1e+5", "1e-5", "1e", "e5", "1e5.5", "1e400", "-1e400", "1e-400", "1e309", "1.7976931348623157e308", "1.7976931348623158e308",
+        "1.7976931348623159e308", "179769313486231580793728971405303415079934132710037826936173778980444968292764750946649017977587207096330286416692887910946555547851940402630657488671505820681908902000708383676273854845817711531764475730270069855571366959622842914819860834936475292719074168444365510704342711559699508093042880177904174497792",
+        "4.9e-324", "2.4703282292062327e-324", "2.4703282292062328e-324", "2.47032822920623272088284396434110686182529901307162382212792841250337753635104375932649918180817996189898282347722858865463328355177969898199387398005390939063150356595155702263922908583924491051844359318028499365361525003193704576782492193656236698636584807570015857692699037063119282795585513329278343384093519780155312465972635795746227664652728272200563740064854999770965994704540208281662262378573934507363390079677619305775067401763246736009689513405355374585166611342237666786041621596804619144672918403005300575308490487653917113865916462395249126236538818796362393732804238910186723484976682350898633885879256283027559956575244555072551893136908362547791869486679949683240497058210285131854513962138377228261454376934125320985913276672363281251",
+        "9007199254740993", "9007199254740995", "9007199254740993.0000000000000000000000001", "9007199254740992.9999999999999999999999999", "16777217", "16777217.0000001",
+        "16777219", "3.4028235e38", "3.4028236e38", "3.40282357e38", "1e39", "1e-46", "7e-46", "1.4e-45", "0.1", "0.3", "3.14",
+        "INF", "-INF", "+INF", "NaN", "inf", "-inf", "+inf", "Inf", "infinity", "Infinity", "-Infinity", "nan", "NAN", "-NaN", "+NaN", "nAn", "INFINITY", "iNf",
+        "true", "false", "1", "0", "TRUE", "True", "False", " true", "true ", "yes", "t", "0x10", "1_000", "1,000", "１２", "٣", "1e١", "1d5", "1f", "1.5f64", "0b1",
+        "--5", "+-5", "5-", "1..2", "1.2.3", "\u{0}", "5\u{0}", "1/2", "NaN ", "-", "0.", "-0.0", "+0.0", "0e0", "-0e0", "0.000", "1.000000000000000000000000000000000000000000000000000001",
+        "0.9999999999999999999999999999999999999999", "123456789012345678901234567890.123456789",
+    ]
+    .iter()
+    .map(|s| s.to_string())
+    .collect()
+}
+
+fn numeric_datatypes() -> Vec<String> {
+    let mut v: Vec<String> = [
+        "double", "float", "decimal", "integer", "long", "int", "short", "byte", "unsignedLong", "unsignedInt", "unsignedShort", "unsignedByte",
+        "nonNegativeInteger", "nonPositiveInteger", "negativeInteger", "positiveInteger", "boolean",
+    ]
+    .iter()
+    .map(|s| xsd_(s))
+    .collect();
+    v.extend(
+        [
+            "string", "dateTime", "anyURI", "Double", "INTEGER", "integer2", "doubl", "",
+        ]
+        .iter()
+        .map(|s| xsd_(s)),
+    );
+    v.push("http://x/dt".into());
+    v.push("http://www.w3.org/2001/XMLSchemadouble".into());
+    v.push("http://www.w3.org/2001/XMLSchema".into());
+    v.push("http://www.w3.org/2001/XMLSchema#double#".into());
+    v.push("https://www.w3.org/2001/XMLSchema#double".into());
+    v.push(rdf("langString"));
+    v.push("integer".into());
+    v
+}
+
+fn gen_numeric_lexical() -> BoxedStrategy<String> {
+    let digits = |max: usize| proptest::collection::vec(0u8..10, 1..=max).prop_map(|v| v.into_iter().map(|d| (b'0' + d) as char).collect::<String>());
+    let sign = pick_str(&["", "", "-", "+"]);
+    let int = (sign.clone(), digits(22)).prop_map(|(s, d)| format!("{s}{d}"));
+    let near_bound = (
+        pick(vec![
+            i32::MAX as i128,
+            i32::MIN as i128,
+            i64::MAX as i128,
+            i64::MIN as i128,
+            u64::MAX as i128,
+            u32::MAX as i128,
+            0,
+            255,
+            127,
+            -128,
+            65535,
+            32767,
+            -32768,
+            1i128 << 53,
+            1i128 << 24,
+        ]),
+        -2i128..=2,
+    )
+        .prop_map(|(b, d)| (b + d).to_string());
+    let dec = (sign.clone(), digits(18), digits(18)).prop_map(|(s, a, b)| format!("{s}{a}.{b}"));
+    let exp = (sign.clone(), digits(17), proptest::option::of(digits(17)), pick_str(&["e", "E"]), pick_str(&["", "-", "+"]), 0u32..420).prop_map(
+        |(s, a, b, e, es, x)| match b {
+            Some(b) => format!("{s}{a}.{b}{e}{es}{x}"),
+            None => format!("{s}{a}{e}{es}{x}"),
+        },
+    );
+    // decimal renderings of exact halfway points between adjacent doubles/floats, +- a tiny bit
+    let ties = (any::<u64>(), 0u8..3, any::<bool>()).prop_map(|(bits, delta, single)| {
+        if single {
+            let k = (bits as u32) % 0x7F00_0000;
+            let a = f32::from_bits(k) as f64;
+            let b = f32::from_bits(k + 1) as f64;
+            tie_string(a, b, delta)
+        } else {
+            // keep to a range where the exact expansion is short enough
+            let ex = 1023 - 60 + (bits >> 52) % 120;
+            let k = (ex << 52) | (bits & ((1 << 52) - 1));
+            let a = f64::from_bits(k);
+            let b = f64::from_bits(k + 1);
+            tie_string(a, b, delta)
+        }
+    });
+    prop_oneof![
+        5 => pick(numeric_lexicals_fixed()),
+        3 => int,
+        2 => near_bound,
+        2 => dec,
+        3 => exp,
+        2 => ties,
+        1 => any::<f64>().prop_map(|f| format!("{f:e}")),
+        1 => any::<f64>().prop_map(|f| format!("{f}")),
+        1 => any::<f32>().prop_map(|f| format!("{f}")),
+        1 => gen::lexical(6),
+    ]
+    .boxed()
+}
+
+/// exact decimal expansion of (a+b)/2 for adjacent binary floats, nudged down/none/up in the last place
+fn tie_string(a: f64, b: f64, delta: u8) -> String {
+    // a and b are dyadic rationals; (a+b)/2 = n / 2^k exactly. Use the Big type to print it.
+    let (ma, ea) = decompose_f64(a);
+    let (mb, eb) = decompose_f64(b);
+    let e = ea.min(eb) - 1;
+    // numerator = ma*2^(ea-e-1) + mb*2^(eb-e-1)   (both shifts >= 0)
+    let num = (ma as u128) * (1u128 << (ea - e - 1)) + (mb as u128) * (1u128 << (eb - e - 1));
+    // value = num * 2^e ; for e < 0: num * 5^(-e) / 10^(-e)
+    let mut big = Big::from_u64(num as u64);
+    if (num >> 64) != 0 {
+        let mut hi = Big::from_u64((num >> 64) as u64);
+        hi.shl(64);
+        // add hi + lo
+        let lo = Big::from_u64(num as u64);
+        big = big_add(&hi, &lo);
+    }
+    let mut s;
+    if e >= 0 {
+        big.shl(e as u64);
+        s = big_to_dec(&big);
+    } else {
+        for _ in 0..(-e) {
+            big.mul_small(5);
+        }
+        let d = big_to_dec(&big);
+        let k = (-e) as usize;
+        s = if d.len() > k {
+            format!("{}.{}", &d[..d.len() - k], &d[d.len() - k..])
+        } else {
+            format!("0.{}{}", "0".repeat(k - d.len()), d)
+        };
+    }
+    match delta {
+        0 => {}
+        1 => {
+            if !s.contains('.') {
+                s.push('.');
+            }
+            s.push_str("0000000000000000000000000001");
+        }
+        _ => {
+            // slightly below: drop one from the last non-zero digit, append 9s
+            let mut bytes: Vec<u8> = s.into_bytes();
+            let mut i = bytes.len();
+            while i > 0 {
+                i -= 1;
+                if bytes[i] == b'.' {
+                    continue;
+                }
+                if bytes[i] > b'0' {
+                    bytes[i] -= 1;
+                    break;
+                }
+                bytes[i] = b'9';
+            }
+            s = String::from_utf8(bytes).unwrap();
+            if !s.contains('.') {
+                s.push('.');
+            }
+            s.push_str("9999999999999999999999999999");
+        }
+    }
+    s
+}
+fn decompose_f64(v: f64) -> (u64, i64) {
+    Fp::F64.decompose(v.to_bits() & 0x7FFF_FFFF_FFFF_FFFF)
+}
+fn big_add(a: &Big, b: &Big) -> Big {
+    let n = a.0.len().max(b.0.len());
+    let mut out = Vec::with_capacity(n + 1);
+    let mut carry = 0u64;
+    for i in 0..n {
+        let v = *a.0.get(i).unwrap_or(&0) as u64 + *b.0.get(i).unwrap_or(&0) as u64 + carry;
+        out.push(v as u32);
+        carry = v >> 32;
+    }
+    if carry > 0 {
+        out.push(carry as u32);
+    }
+    let mut r = Big(out);
+    r.trim();
+    r
+}
+fn big_to_dec(b: &Big) -> String {
+    if b.is_zero() {
+        return "0".into();
+    }
+    let mut words = b.0.clone();
+    let mut chunks: Vec<u32> = vec![];
+    while !words.is_empty() {
+        let mut rem = 0u64;
+        for w in words.iter_mut().rev() {
+            let cur = (rem << 32) | *w as u64;
+            *w = (cur / 1_000_000_000) as u32;
+            rem = cur % 1_000_000_000;
+        }
+        chunks.push(rem as u32);
+        while words.last() == Some(&0) {
+            words.pop();
+        }
+    }
+    let mut s = format!("{}", chunks.pop().unwrap());
+    while let Some(c) = chunks.pop() {
+        s.push_str(&format!("{c:09}"));
+    }
+    s
+}
+
+impl Check for C20 {
+    type Case = Case;
+    const ID: &'static str = "C20";
+    fn rule() -> String {
+        "native cases (i32/isize/usize/bool/f64/str): the value as a term must be a literal with the documented datatype and a lexical form accepted by a hand-written recogniser of that datatype's XSD lexical space; the value must come back identical (bitwise for f64, NaN->NaN) from 17 term representations and from 10 serialiser/parser round trips (NT, NQ, Turtle, pretty Turtle, TriG, pretty TriG, RDF/XML, indented RDF/XML, JSON-LD, pretty JSON-LD). Literal cases: the 5 TryFromTerm conversions never panic, agree across 6 representations, and every success equals the value computed by an exact oracle (big-integer decimal->binary rounding, integer facets). Non-trivial = every native case (distinct by value) and every literal case with a numeric/boolean XSD datatype whose lexical form is valid or for which some conversion succeeds.".into()
+    }
+    fn assumptions() -> Vec<String> {
+        vec![
+            "xsd:string lexical space = XML 1.1 Char* (most permissive reading: only U+0000, U+FFFE, U+FFFF are excluded)".into(),
+            "RDF/XML round trips are only demanded for strings made of XML 1.0 Chars (the format cannot carry the others); other outcomes are counted".into(),
+            "ill-typed literals (lexical form outside the lexical space or facet range of the datatype) accepted by a conversion are counted, not failed: they denote no value".into(),
+            "xsd:decimal/integer -> f64: the correctly rounded nearest double is accepted (the exact value is in general not representable); +INF accepted as xsd:double lexical (XSD 1.1)".into(),
+            "JSON-LD serialiser run with default options (useNativeTypes=false); the native-types mode is lossy by specification".into(),
+            "isize/usize are 64-bit on the test platform".into(),
+        ]
+    }
+    fn cases(tier: Tier) -> u32 {
+        tier.pick(600_000, 20_000_000)
+    }
+    fn fixed_cases(_tier: Tier, _seed: u64) -> Vec<Case> {
+        let mut v = vec![];
+        for b in f64_edges() {
+            v.push(Case::F64(b));
+        }
+        for i in [0, 1, -1, i32::MAX, i32::MIN, 10, -10, 42, i32::MAX - 1, i32::MIN + 1] {
+            v.push(Case::I32(i));
+        }
+        for i in [0, 1, -1, i64::MAX, i64::MIN, i32::MAX as i64 + 1, i32::MIN as i64 - 1, (1 << 53) + 1, -(1 << 53) - 1] {
+            v.push(Case::Isize(i));
+        }
+        for i in [0, 1, u64::MAX, 1 << 63, (1 << 53) + 1, u32::MAX as u64 + 1, i64::MAX as u64] {
+            v.push(Case::Usize(i));
+        }
+        v.push(Case::Bool(true));
+        v.push(Case::Bool(false));
+        for s in nasty_strings() {
+            v.push(Case::Str(s));
+        }
+        let dts = numeric_datatypes();
+        for (i, l) in numeric_lexicals_fixed().into_iter().enumerate() {
+            for (j, d) in dts.iter().enumerate() {
+                // every lexical form with every numeric/boolean datatype; a sample with the others
+                if j < 17 || i % 8 == 0 {
+                    v.push(Case::Lit(l.clone(), d.clone()));
+                }
+            }
+        }
+        v
+    }
+    fn strategy(_tier: Tier) -> BoxedStrategy<Case> {
+        let f64s = prop_oneof![
+            2 => pick(f64_edges()),
+            4 => any::<u64>(),
+            2 => (any::<i64>(), 0u32..25).prop_map(|(m, k)| (m as f64 / 10f64.powi(k as i32)).to_bits()),
+            2 => (any::<i32>(), -330i32..310).prop_map(|(m, k)| (m as f64 * 10f64.powi(k)).to_bits()),
+            1 => (0u64..2048, any::<bool>(), -2i64..=2).prop_map(|(e, neg, d)| {
+                let base = (e << 52) as i64 + d;
+                let b = (base.max(0) as u64) | if neg { 1 << 63 } else { 0 };
+                b
+            }),
+            1 => any::<f32>().prop_map(|f| (f as f64).to_bits()),
+            1 => (-400i32..400).prop_map(|k| 10f64.powi(k).to_bits()),
+        ]
+        .prop_map(Case::F64);
+        let i32s = prop_oneof![
+            1 => pick(vec![0, 1, -1, i32::MAX, i32::MIN, 9, 10, -10, 99, 100]),
+            3 => any::<i32>(),
+            1 => -1000i32..1000,
+        ]
+        .prop_map(Case::I32);
+        let isizes = prop_oneof![
+            1 => pick(vec![0i64, -1, i64::MAX, i64::MIN, i32::MAX as i64 + 1, i32::MIN as i64 - 1, 1 << 53, (1 << 53) + 1]),
+            3 => any::<i64>(),
+            1 => (0u32..63, any::<bool>(), -2i64..=2).prop_map(|(s, n, d)| { let v = (1i64 << s).wrapping_add(d); if n { v.wrapping_neg() } else { v } }),
+        ]
+        .prop_map(Case::Isize);
+        let usizes = prop_oneof![
+            1 => pick(vec![0u64, 1, u64::MAX, 1 << 63, (1 << 63) - 1, (1 << 53) + 1, u32::MAX as u64, u32::MAX as u64 + 1]),
+            3 => any::<u64>(),
+            1 => (0u32..64, -2i64..=2).prop_map(|(s, d)| (1u64 << s).wrapping_add(d as u64)),
+        ]
+        .prop_map(Case::Usize);
+        let strs = prop_oneof![
+            2 => pick(nasty_strings()),
+            5 => gen::lexical(12),
+            1 => pick(numeric_lexicals_fixed()),
+            1 => "\\PC{0,12}",
+        ]
+        .prop_map(Case::Str);
+        let boolish = pick_str(&["true", "false", "1", "0", "TRUE", "False", " true", "true ", "t", "yes", "", "01", "00", "+1", "-0", "1.0", "tru", "falsee"]);
+        let lits = prop_oneof![
+            12 => (gen_numeric_lexical(), pick(numeric_datatypes()[..16].to_vec())).prop_map(|(l, d)| Case::Lit(l, d)),
+            1 => boolish.prop_map(|l| Case::Lit(l, xsd_("boolean"))),
+            1 => (gen_numeric_lexical(), pick(numeric_datatypes())).prop_map(|(l, d)| Case::Lit(l, d)),
+        ];
+        let mut cfg = gen::TermCfg::full();
+        cfg.allow_var = true;
+        cfg.lex = prop_oneof![pick(numeric_lexicals_fixed()), gen::lexical(6)].boxed();
+        let mut dts = numeric_datatypes()[..19].to_vec();
+        dts.push("http://x/dt".into());
+        cfg.dts = dts;
+        let terms = cfg.term('o', true).prop_map(Case::Term);
+        prop_oneof![
+            5 => f64s,
+            2 => i32s,
+            2 => isizes,
+            2 => usizes,
+            1 => any::<bool>().prop_map(Case::Bool),
+            4 => strs,
+            10 => lits,
+            2 => terms,
+        ]
+        .boxed()
+    }
+    fn run(case: &Case, ctx: &mut Ctx) {
+        match case {
+            Case::I32(v) => {
+                ctx.nontrivial();
+                check_native::<KI32, i32>(ctx, *v, *v);
+                check_literal(ctx, &v.to_string(), &xsd_("integer"));
+            }
+            Case::Isize(v) => {
+                ctx.nontrivial();
+                let v = *v as isize;
+                check_native::<KIsize, isize>(ctx, v, v);
+                check_literal(ctx, &v.to_string(), &xsd_("integer"));
+            }
+            Case::Usize(v) => {
+                ctx.nontrivial();
+                let v = *v as usize;
+                check_native::<KUsize, usize>(ctx, v, v);
+                check_literal(ctx, &v.to_string(), &xsd_("integer"));
+            }
+            Case::Bool(v) => {
+                ctx.nontrivial();
+                check_native::<KBool, bool>(ctx, *v, *v);
+            }
+            Case::F64(b) => {
+                ctx.nontrivial();
+                let v = f64::from_bits(*b);
+                check_native::<KF64, f64>(ctx, v, v);
+            }
+            Case::Str(s) => {
+                ctx.nontrivial();
+                check_native::<KStr, &str>(ctx, s.as_str(), s.clone());
+                // a string is never a number, whatever it looks like
+                check_any_term(ctx, &MT::string(s.clone()));
+            }
+            Case::Lit(l, d) => {
+                if IriRef::new(d.as_str()).is_err() {
+                    ctx.class("lit:invalid-datatype-iri(skipped)");
+                    return;
+                }
+                check_literal(ctx, l, d)
+            }
+            Case::Term(m) => {
+                if m.is_literal() {
+                    ctx.nontrivial();
+                }
+                check_any_term(ctx, m)
+            }
+        }
+    }
+    fn show(case: &Case) -> serde_json::Value {
+        match case {
+            Case::F64(b) => serde_json::json!({"F64": format!("{:?} (bits {b:#x})", f64::from_bits(*b))}),
+            Case::Term(m) => serde_json::json!({"Term": m.show()}),
+            o => serde_json::to_value(o).unwrap_or_default(),
+        }
+    }
+}
+
+pub fn main(opts: &Opts) -> i32 {
+    drive::<C20>(opts)
 }
 pub fn worker(_args: &[String]) -> i32 {
     2
 }
+
